@@ -273,6 +273,61 @@ pub fn exec(op: &str, a: &[String]) -> Option<Reply> {
                 if same { "same".into() } else if d.is_ok() { "different".into() } else { "err".into() },
             ]))
         }
+        // every Unicode scalar in [lo, hi) that the encoding can represent, through
+        // decode_charset(encode_charset(..)): in chunks, failing chunks are bisected to single characters.
+        // observations: number of scalars tested, failing scalars (hex, comma separated; `-` if none),
+        // failing chunks none of whose characters fails alone (first scalar of each).
+        ("o.c22.sweep", [label, lo, hi]) => {
+            let label_b = unhex(label)?;
+            let (lo, hi): (u32, u32) = (lo.parse().ok()?, hi.parse().ok()?);
+            let enc = encoding_rs::Encoding::for_label(&label_b)?;
+            let extra = [("l", vb(&label_b))];
+            let rt = |t: &str| -> bool {
+                match run_with("encode_charset!(.b, .l)", "b", t.as_bytes(), &extra) {
+                    Ok(e) => matches!(run_with("decode_charset!(.e, .l)", "e", &e, &extra), Ok(d) if d == t.as_bytes()),
+                    Err(_) => false,
+                }
+            };
+            let mut tested = 0u64;
+            let mut bad: Vec<u32> = Vec::new();
+            let mut ctx: Vec<u32> = Vec::new();
+            let mut chunk = String::new();
+            let mut flush = |chunk: &mut String, bad: &mut Vec<u32>, ctx: &mut Vec<u32>| {
+                if chunk.is_empty() {
+                    return;
+                }
+                // a leading 'a' keeps byte-order-mark sniffing out of the chunk test
+                let t = format!("a{chunk}");
+                if !rt(&t) {
+                    let before = bad.len();
+                    for c in chunk.chars() {
+                        if !rt(&format!("a{c}")) {
+                            bad.push(c as u32);
+                        }
+                    }
+                    if bad.len() == before {
+                        ctx.push(chunk.chars().next().unwrap() as u32);
+                    }
+                }
+                chunk.clear();
+            };
+            for cp in lo..hi {
+                let Some(c) = char::from_u32(cp) else { continue };
+                let mut buf = [0u8; 4];
+                let (_, _, unmappable) = enc.encode(c.encode_utf8(&mut buf));
+                if unmappable {
+                    continue;
+                }
+                tested += 1;
+                chunk.push(c);
+                if chunk.chars().count() >= 256 {
+                    flush(&mut chunk, &mut bad, &mut ctx);
+                }
+            }
+            flush(&mut chunk, &mut bad, &mut ctx);
+            let list = |v: &[u32]| if v.is_empty() { "-".to_string() } else { v.iter().map(|c| format!("{c:x}")).collect::<Vec<_>>().join(",") };
+            Some(Reply::oracle(vec![enc.name().to_string(), tested.to_string(), list(&bad), list(&ctx)]))
+        }
         // scratch: run any program on `.b`
         ("c22.probe", [src, b]) => {
             let b = unhex(b)?;
@@ -669,6 +724,18 @@ pub fn generate(sink: &mut Sink, rng: &mut Rng, n: u64) {
             let t = charset_text(rng, label, len);
             emit_oracle(sink, "charset", &hx(label.as_bytes()), &t);
             sink.emit("c22.charset.panics", &[hx(&t)]);
+        }
+    }
+    // exhaustive over Unicode scalars: every representable scalar of an encoding through the round trip
+    // (the encodings that encode as UTF-8 are left to the o.c22 cases: every scalar fails there)
+    let sweep_labels: Vec<&str> = if thorough {
+        CHARSET_LABELS[..40].iter().copied().filter(|l| !["replacement", "UTF-16BE", "UTF-16LE"].contains(l)).collect()
+    } else {
+        vec!["Shift_JIS", "EUC-JP", "ISO-2022-JP", "GBK", "Big5", "EUC-KR", "windows-1252", "KOI8-R"]
+    };
+    for l in sweep_labels {
+        if sink.emit("o.c22.sweep", &[hx(l.as_bytes()), "0".into(), "1114112".into()]).is_some() {
+            sink.count("c22:charset:exhaustive_scalar_sweeps");
         }
     }
     // punycode: fixed domains × the four validate combinations
